@@ -410,6 +410,8 @@ func (s *Script) compSort(key string) string {
 		return "(Array Int (Array Int Bool))"
 	case "ghoststr":
 		return "(Array Int (Array Int Str))"
+	case "ghostreal":
+		return "(Array Int (Array Int Real))"
 	case "field", "cell", "ghost":
 		if ci.t == nil {
 			return "(Array Int Int)"
@@ -461,6 +463,8 @@ func (env *Env) regGhostComp(key string, t types.Type, special string) {
 			env.comps[key] = compInfo{kind: "ghostset"}
 		} else if special == "strmap" {
 			env.comps[key] = compInfo{kind: "ghoststr"}
+		} else if special == "realmap" {
+			env.comps[key] = compInfo{kind: "ghostreal"}
 		} else {
 			env.comps[key] = compInfo{kind: "ghost", t: t}
 		}
